@@ -83,10 +83,28 @@ where
     )
 }
 
+/// A scripted history (replays of findings made during design); numbers in the scale of the width.
+#[derive(Clone)]
+pub struct Script<T> {
+    pub cfg: PsCfg<T>,
+    pub primary: (T, T),
+    pub impact_pool: T,
+    /// (is_long, is_collateral_token_long) per position
+    pub positions: Vec<(bool, bool)>,
+    pub ops: Vec<SOp<T>>,
+}
+#[derive(Clone, Copy)]
+pub enum SOp<T> {
+    /// position, (index, long, short) mid prices, collateral increment, size delta
+    Inc(usize, (T, T, T), T, T),
+    /// position, prices, size delta, collateral withdrawal
+    Dec(usize, (T, T, T), T, T),
+}
+
 macro_rules! gen_for {
     ($fname:ident, $U:ty, $S:ty, $W:expr, $DEC:expr) => {
         #[allow(clippy::too_many_lines, unused_assignments)]
-        fn $fname(rng: &mut Rng, mode: &str) {
+        fn $fname(rng: &mut Rng, mode: &str, script: Option<&Script<$U>>) {
             type M = TestMarket<$U, $DEC>;
             type P = TestPosition<$U, $DEC>;
             let w: u32 = $W;
@@ -131,7 +149,7 @@ macro_rules! gen_for {
             let max_neg: $U = pct(*rng.pick(&[10u64, 50, 100, 0]));
             let max_pos: $U = if rng.chance(1, 5) { max_neg.saturating_mul(3) + pct(10) } else { *rng.pick(&[0 as $U, max_neg / 2, max_neg]) };
             let min_cf: $U = pct(*rng.pick(&[0u64, 50, 100, 200]));
-            let cfg = PsCfg::<$U> {
+            let cfg_random = PsCfg::<$U> {
                 min_size: *rng.pick(&[0 as $U, unit, unit * 10]),
                 min_cv: *rng.pick(&[0 as $U, unit, unit * 5]),
                 min_cf,
@@ -175,6 +193,7 @@ macro_rules! gen_for {
                 ignore_oi_for_usage: rng.chance(1, 4),
             };
 
+            let cfg: PsCfg<$U> = match script { Some(sc) => sc.cfg.clone(), None => cfg_random };
             // ---------------------------------------------------------------- initial market
             let mut m: M = ps::new_market(&cfg);
             let pool_usd: $U = if mode == "c09" && rng.chance(1, 2) { logu(rng, usd_hi / 10, usd_hi.saturating_mul(4)) } else { logu(rng, usd_hi.saturating_mul(4), usd_hi.saturating_mul(200)) };
@@ -186,10 +205,18 @@ macro_rules! gen_for {
             if rng.chance(1, 3) { m.vi_swaps = Some(TestPool { long_amount: m.primary.long_amount, short_amount: m.primary.short_amount }); }
             m.now = 1_000_000;
 
-            let n_pos = rng.range(2, 6) as usize;
+            if let Some(sc) = script {
+                m.primary = TestPool { long_amount: sc.primary.0, short_amount: sc.primary.1 };
+                m.swap_impact = TestPool { long_amount: 0, short_amount: 0 };
+                m.position_impact.long_amount = sc.impact_pool;
+                m.vi_positions = None; m.vi_swaps = None;
+            }
+            let n_pos = match script { Some(sc) => sc.positions.len(), None => rng.range(2, 6) as usize };
             let mut pos: Vec<P> = (0..n_pos).map(|i| {
                 let is_long = if i == 0 { true } else if i == 1 { false } else { rng.chance(1, 2) };
-                P { is_long, is_collateral_token_long: rng.chance(1, 2), ..Default::default() }
+                let cl = rng.chance(1, 2);
+                match script { Some(sc) => P { is_long: sc.positions[i].0, is_collateral_token_long: sc.positions[i].1, ..Default::default() },
+                               None => P { is_long, is_collateral_token_long: cl, ..Default::default() } }
             }).collect();
 
             let s0 = ps::mstate(&m);
@@ -198,7 +225,7 @@ macro_rules! gen_for {
             // statistics for the tag
             let (mut n_ok, mut n_err, mut n_dirty, mut n_removed, mut n_liq_ok, mut n_adl_ok, mut n_insolvent, mut n_roundtrip, mut n_promoted, mut n_zero_tok) = (0, 0, 0, 0, 0, 0, 0, 0, 0, 0);
 
-            let n_ops = rng.range(6, 18) as usize;
+            let n_ops = match script { Some(sc) => sc.ops.len(), None => rng.range(6, 18) as usize };
             let w_fees: u64 = if mode == "c08" { 5 } else { 3 };
             let w_liq: u64 = if mode == "c09" { 4 } else { 1 };
             let w_adl: u64 = if mode == "c09" { 3 } else { 1 };
@@ -217,7 +244,14 @@ macro_rules! gen_for {
                 let prices: Prices<$U>;
                 let kind: u64;
                 let idx: usize;
-                if let Some((i, pr)) = pending_close.take() {
+                let mut forced: Option<($U, $U)> = None;
+                if let Some(sc) = script {
+                    let mkp = |t: ($U, $U, $U)| Prices { index_token_price: Price { min: t.0, max: t.0 }, long_token_price: Price { min: t.1, max: t.1 }, short_token_price: Price { min: t.2, max: t.2 } };
+                    match sc.ops[k - 1] {
+                        SOp::Inc(i, pr, c, sd) => { idx = i; prices = mkp(pr); kind = 1; forced = Some((c, sd)); }
+                        SOp::Dec(i, pr, sd, wd) => { idx = i; prices = mkp(pr); kind = 2; forced = Some((sd, wd)); }
+                    }
+                } else if let Some((i, pr)) = pending_close.take() {
                     prices = pr; kind = 100; idx = i;
                 } else {
                     idx = rng.below(n_pos as u64) as usize;
@@ -252,7 +286,7 @@ macro_rules! gen_for {
                 }
 
                 // ---- update_fees_state: clock forward, distribute impact, borrowing, funding
-                if kind == 0 || (kind != 100 && kind != 0 && rng.chance(2, 3)) {
+                if script.is_none() && (kind == 0 || (kind != 100 && kind != 0 && rng.chance(2, 3))) {
                     let snap = m.clone();
                     let dt = if kind == 0 { *rng.pick(&[1u64, 60, 3600, 86_400, 604_800]) } else { *rng.pick(&[0u64, 0, 1, 60, 3600]) };
                     m.move_clock_forward(dt);
@@ -299,7 +333,7 @@ macro_rules! gen_for {
                     1 | 5 => {
                         // increase (5 = first half of a round trip on an empty position)
                         let open = p_before.size_in_usd != 0;
-                        let (coll_inc, sd): ($U, $U) = if !open || kind == 5 {
+                        let (coll_inc, sd): ($U, $U) = if let Some(f) = forced { f } else if !open || kind == 5 {
                             let sd = logu(rng, usd_lo, usd_hi);
                             let lev = if rng.chance(1, 12) { *rng.pick(&[100u64, 200, 1000]) } else { *rng.pick(&[1u64, 2, 3, 5, 10, 20, 50]) };
                             ((sd / (lev as $U) + if rng.chance(9, 10) { cfg.min_cv * 2 } else { 0 }) / cp.min.max(1), sd)
@@ -311,7 +345,7 @@ macro_rules! gen_for {
                                 _ => { let sd = logu(rng, usd_lo, usd_hi); (sd / 10 / cp.min.max(1), sd) }
                             }
                         };
-                        let acc = acc_for(rng, p_before.is_long);
+                        let acc = if forced.is_some() { None } else { acc_for(rng, p_before.is_long) };
                         op_s = format!("OpInc {idx} {} {} {} {}", ps::prices(&prices), z(coll_inc), z(sd), oz(acc));
                         let r = pos[idx].ops(&mut m).increase(prices, coll_inc, sd, acc).and_then(|a| a.execute());
                         match r {
@@ -324,7 +358,7 @@ macro_rules! gen_for {
                     2 | 100 => {
                         let size = p_before.size_in_usd;
                         let coll = p_before.collateral_token_amount;
-                        let sd: $U = if kind == 100 { size } else { match rng.below(12) {
+                        let sd: $U = if let Some(f) = forced { f.0 } else if kind == 100 { size } else { match rng.below(12) {
                             0 => size, 1 => size, 2 => size / 2, 3 => size / 10, 4 => size.saturating_sub(1), 5 => 1, 6 => 0,
                             7 => size.saturating_add(1 + rng.below(1000) as $U),
                             8 => size - size / 100,
@@ -333,13 +367,20 @@ macro_rules! gen_for {
                             10 => { let t = p_before.size_in_tokens.max(1); (size / t).saturating_mul(t.saturating_sub(1)).min(size) }
                             _ => if size == 0 { 0 } else { (rng.next128() as $U) % size },
                         } };
-                        let wd: $U = if kind == 100 { 0 } else { match rng.below(7) { 0 | 1 | 2 => 0, 3 => coll / 2, 4 => coll, 5 => coll.saturating_add(5), _ => if coll == 0 { 0 } else { (rng.next128() as $U) % coll } } };
+                        let wd_target: Option<$U> = if mode == "c09" && forced.is_none() && kind == 2 && sd < size && rng.chance(1, 2) {
+                            // leave just about the minimum collateral behind (the estimate in check_partial_close ignores fees)
+                            let rest = size - sd;
+                            let need = (cfg.min_cv).max(rest / unit * cfg.min_cf) / cp.min.max(1);
+                            let keep = need + need / 100 * (rng.below(12) as $U) + rng.below(3) as $U;
+                            Some(coll.saturating_sub(keep))
+                        } else { None };
+                        let wd: $U = if let Some(f) = forced { f.1 } else if let Some(t) = wd_target { t } else if kind == 100 { 0 } else { match rng.below(7) { 0 | 1 | 2 => 0, 3 => coll / 2, 4 => coll, 5 => coll.saturating_add(5), _ => if coll == 0 { 0 } else { (rng.next128() as $U) % coll } } };
                         let fl = DecreasePositionFlags {
-                            is_insolvent_close_allowed: kind != 100 && rng.chance(1, 6),
+                            is_insolvent_close_allowed: forced.is_none() && kind != 100 && rng.chance(1, 6),
                             is_liquidation_order: false,
-                            is_cap_size_delta_usd_allowed: rng.chance(1, 2),
+                            is_cap_size_delta_usd_allowed: forced.is_none() && rng.chance(1, 2),
                         };
-                        let acc = if kind == 100 { None } else { acc_for(rng, !p_before.is_long) };
+                        let acc = if kind == 100 || forced.is_some() { None } else { acc_for(rng, !p_before.is_long) };
                         op_s = format!("OpDec {idx} {} {} {} {} (MkFlags {} {} {})", ps::prices(&prices), z(sd), oz(acc), z(wd), b(fl.is_insolvent_close_allowed), b(fl.is_liquidation_order), b(fl.is_cap_size_delta_usd_allowed));
                         let r = pos[idx].ops(&mut m).decrease(prices, sd, acc, wd, fl).and_then(|a| a.execute());
                         match r {
@@ -445,6 +486,7 @@ macro_rules! gen_for {
             if n_insolvent > 0 { tag.push_str("+insolvent"); }
             if n_roundtrip > 0 { tag.push_str("+roundtrip"); }
             if trivial { tag = format!("hist{w}/trivial"); }
+            if script.is_some() { tag = format!("replay{w}/ok{}", n_ok); }
             emit(&tag, &format!("Hist {w} {dec} {} {s0} [{}] [{}]", cfg.coq(), ps0.join("; "), steps.join("; ")));
         }
     };
@@ -452,6 +494,33 @@ macro_rules! gen_for {
 
 gen_for!(gen64, u64, i64, 64, 9);
 gen_for!(gen128, u128, i128, 128, 20);
+
+/// The crate's test configuration (u64, 9 decimals).
+fn test_cfg() -> PsCfg<u64> {
+    let unit = 1_000_000_000u64;
+    PsCfg {
+        min_size: unit, min_cv: unit, min_cf: 10_000_000, min_cf_liq: None,
+        max_pos_impact: 5_000_000, max_neg_impact: 5_000_000, max_impact_liq: 2_500_000,
+        ip_exp: 2 * unit, ip_pos: 1, ip_neg: 2,
+        fee_pos: 500_000, fee_neg: 700_000, fee_recv: 370_000_000, fee_discount: None,
+        borrow_recv: 370_000_000, liq_factor: 2_000_000, liq_recv: 370_000_000,
+        reserve: unit, oi_reserve: unit, max_pnl_trader: 500_000_000, max_pnl_adl: 500_000_000, min_pnl_after_adl: 0,
+        max_oi: u64::MAX, min_cf_oi_mult: 0, funding_adj: 10_000, divisor: 1,
+        funding: [unit, 20, 10, 1, 10, 0, 50_000_000, 0],
+        borrowing: [unit, unit, 28, 28], borrowing_skip_smaller: true,
+        kink: [750_000_000, 600_000_000 / 31_536_000, 1_500_000_000 / 31_536_000],
+        distribute: [unit, unit], max_pool_amount: unit * unit, ignore_oi_for_usage: false,
+    }
+}
+
+/// C09: a partial decrease with a collateral withdrawal leaves the position open and liquidatable (MinCollateral).
+fn script_c09() -> Script<u64> {
+    Script {
+        cfg: test_cfg(), primary: (1_000_000_000, 1_000_000_000), impact_pool: 0,
+        positions: vec![(true, true), (false, false)],
+        ops: vec![SOp::Inc(0, (123, 123, 1), 100_000_000, 80_000_000_000), SOp::Dec(0, (123, 123, 1), 40_000_000_000, 91_100_000)],
+    }
+}
 
 fn main() {
     let a = args();
@@ -462,7 +531,11 @@ fn main() {
         i += 1;
     }
     let mut rng = Rng::new(a.seed);
+    // replays of the deviations found during design (DESIGN.md section 7), executed on the real code
+    if mode == "c09" || mode == "mix" {
+        gen64(&mut rng, &mode, Some(&script_c09()));
+    }
     for _ in 0..a.n {
-        if rng.chance(1, 2) { gen64(&mut rng, &mode) } else { gen128(&mut rng, &mode) }
+        if rng.chance(1, 2) { gen64(&mut rng, &mode, None) } else { gen128(&mut rng, &mode, None) }
     }
 }
